@@ -73,6 +73,7 @@ class ScopeKernels:
         m.table = [(r, h) for r, h in m.table if h.__name__ not in ("m_pair_primitive", "m_pair_set_primitive", "m_load_variable")]
         m.table = [(re.compile(r"^std::mem::replace::<.*>$"), m_mem_replace),
                    (re.compile(r"^context::Ctx::<'_>::load_variable$"), self._m_load_variable),
+                   (re.compile(r"^context::Ctx::<'_>::load_local$"), self._m_load_local),
                    (re.compile(r"^context::Ctx::<'_>::load_callback_variable$"), self._m_load_callback_variable)] + m.table
         m.cache.clear()
         pre = CRATE_PREFIXES + ["GcVector", "Stack", "SpecialScope", "PrimitiveFlagsPair", "VariableMapping", "VariableFlags", "StackFrame", "PrimitiveFunction", "TupleWithGcOpt"]
@@ -145,6 +146,14 @@ class ScopeKernels:
         """Ctx::load_variable(name) = self.call_stack.borrow().find_name(name): the REAL find_name is run on the stack cell"""
         from sym import Invoke
         return [(None, Invoke(self.fn["find_name"], [Ref(("stack",)), args[1]], lambda st2, val: val))]
+
+    def _m_load_local(self, ex, st, callee, args):
+        """Ctx::load_local(name) = self.call_stack.borrow().find_name_in_function(name).context(..): the REAL function on the stack cell"""
+        from sym import Invoke
+        from models import ok, err
+        fn = targets.find_one(self.mf, r"stack\.rs.*>::find_name_in_function$")
+        return [(None, Invoke(fn, [Ref(("stack",)), args[1]],
+                              lambda st2, val: ok(val.fields[0]) if val.variant == "Some" else err(Opaque("anyhow", "name not found"))))]
 
     def update_writes_read_only(self):
         """does the real VariableMapping::update write a read-only variable?  (read off the engine's own summary of it)"""
